@@ -163,8 +163,65 @@ Example C07_int_examples :
   raw_of_pattern BUint 8 255 = 255 /\ carrier_bits 4 = 8 /\ carrier_bits 9 = 16 /\ carrier_bits 16 = 16.
 Proof. vm_compute. repeat split. Qed.
 
+
+(* ---------------- builds: the statement is FALSE once cfg gates are involved ---------------- *)
+
+(* Genuine defect (found by this check; see notes/C07-C15.md).  names_unique keys generated enums on
+   (name, cfg), so two enums of the same name under different cfgs are accepted; the conversion-method choice
+   then looks the reused name up by NAME ONLY and takes the first hit.  Witness:
+       #[cfg(feature = "a")]      register Ra { xx: uint as     enum En { Aa, Bb, Cc, Dd } = 0..2 }
+       #[cfg(not(feature = "a"))] register Rb { yy: uint as try enum En { Aa }             = 0..2 }
+                                  register Rc { zz: uint as En                              = 0..2 }
+   zz gets the unchecked getter because the FIRST En is Infallible{2}; in the build without feature "a" the
+   only En is the one-variant TryFrom enum, and zz() on the bit pattern 1 unwraps an Err unchecked. *)
+Definition cfg_a : string := "feature = ""a""".
+Definition cfg_not_a : string := "not(feature = ""a"")".
+Definition regc (c : cfg) (n : string) (a : Z) (fs : list field) : object :=
+  ORegister {| rg_cfg := c; rg_name := n; rg_access := RW; rg_byte_order := Some BoLE; rg_bit_order := BiLSB0;
+               rg_allow_bit_overlap := false; rg_allow_address_overlap := false; rg_address := a;
+               rg_size_bits := 8; rg_reset := None; rg_repeat := None; rg_fields := fs |}.
+Definition f_zz := fld "zz" BUint 0 2 (Some (ConvDirect "En" false)).
+Definition d_cfg := dev
+  [ regc (Some cfg_a) "Ra" 0 [fld "xx" BUint 0 2 (Some (ConvEnum (en "En" [var "Aa" EVUnspec; var "Bb" EVUnspec; var "Cc" EVUnspec; var "Dd" EVUnspec]) false))];
+    regc (Some cfg_not_a) "Rb" 1 [fld "yy" BUint 0 2 (Some (ConvEnum (en "En" [var "Aa" EVUnspec]) true))];
+    regc None "Rc" 2 [f_zz] ].
+Definition build_without_a : cfg_env := fun c => String.eqb c cfg_not_a.
+
+Theorem C07_cfg_reuse_refuted :
+  exists env d f name p,
+    enum_values_check d = VOk /\ conv_choice (collect_enums d) f = CMUnsafeInto name /\
+    0 <= p < 2 ^ field_width f /\ f_base f = BUint /\
+    getter_env env d f p = Fail UB_unwrap_unchecked.
+Proof. exists build_without_a, d_cfg, f_zz, "En", 1. vm_compute. repeat split; discriminate. Qed.
+
+(* The strongest true statement: when no object or field carrying a generated enum is cfg-gated, every build
+   contains every enum and the infallible getter is total in every build. *)
+Theorem C07_infallible_getter_total_partial : forall env d f name p,
+  cfg_free d ->
+  enum_values_check d = VOk ->
+  conv_choice (collect_enums d) f = CMUnsafeInto name ->
+  0 <= p < 2 ^ field_width f ->
+  (f_base f = BInt -> field_width f = carrier_bits (field_width f) ->
+   forall ee v, resolve (emitted_enums d) name = Some ee -> In v (ee_variants ee) ->
+                ev_num v <= 2 ^ (field_width f - 1) - 1) ->
+  exists x, getter_env env d f p = Ok x.
+Proof. exact infallible_getter_total_any_build. Qed.
+
+Example C07_cfg_examples :
+  cfg_free d_reuse /\
+  (* in the build WITH feature "a" the same getter is fine on every pattern *)
+  forallb (fun p => is_ok (getter_env (fun c => String.eqb c cfg_a) d_cfg f_zz p)) [0; 1; 2; 3] = true /\
+  map (fun p => token_of_getter p (getter_env build_without_a d_cfg f_zz p)) [0; 1; 2; 3] = [TUnit "Aa"; TUB; TUB; TUB].
+Proof.
+  split; [|vm_compute; split; reflexivity].
+  intros s Hs c Hc. vm_compute in Hs.
+  destruct Hs as [<-|[]]. cbn in Hc. destruct Hc as [<-|[<-|[]]]; reflexivity.
+Qed.
+
 Print Assumptions C07_from_num_precedence.
 Print Assumptions C07_error_payload.
 Print Assumptions C07_roundtrip.
 Print Assumptions C07_infallible_getter_total.
 Print Assumptions C07_int_full_width_guard_necessary.
+Print Assumptions C07_cfg_reuse_refuted.
+Print Assumptions C07_infallible_getter_total_partial.
